@@ -21,6 +21,10 @@ CLAIMS = {
          'Module::initialize/start/stop/cleanup under CBMC contracts for every module state, every number of children (loop contracts), every hook outcome: balance invariant (successful init <-> pending cleanup, successful start <-> pending stop) on every exit incl. failing required children, hooks only in legal states (start after init, stop only started, cleanup after stop), parent before children, children in registration order / exact reverse order, optional-child failures tolerated. Recursion through child-view contracts.',
          'Trusted: printer, CBMC, std::vector/std::string/Json models, hook stubs (any result). Induction over tree depth is a paper step; add()/~Module/Main() not covered.',
          'CBMC function contracts + loop contracts with ghost call counters on mechanically extracted C', '6 C11'),
+ 'C20': ('other',
+         'Alarm::activeTimer/onTimeExpired/enable/disable/cleanup/refresh under unbounded CBMC contracts: the armed delay in ms (64-bit) is never shorter than the wall-clock distance for every distance, the computation starts from max(now, previous target) so one instant is served once, re-arm before the user callback, a callback that disables the alarm leaves it disabled, disable/cleanup disarm. Next-instant functions of the one-shot, weekly and workday alarms: result matches the configuration, is strictly after the current time and no earlier instant matches (ghost witness) - bounded domain (current time < 32 days from the epoch, thorough 1024 days; all masks, seconds of day, calendars symbolic; workday scan by loop contract).',
+         'Trusted: printer, CBMC, clock / time-zone / TimerEvent / callback stubs. / and % by 86400 over 32 bits are out of solver reach, hence the bounded domain for the calendar arithmetic (periodicity beyond the window is an unchecked argument). CronAlarm / ccronexpr not covered.',
+         'CBMC function contracts (unbounded) + bounded-domain contracts for the calendar arithmetic', '6 C20'),
  'C19': ('proof',
          'Per-function CBMC contracts and loop-free/complete-unwinding lemmas on the C re-printed from the real codec sources: size functions, frames (no write beyond capacity, no read outside input), exact inverse on every value, CRC/checksum/MD5/AES equal to reference definitions written from the standards.',
          'Trusted: clang-AST->C printer, CBMC+SAT, allocator never fails, libc models; std::string/vector overloads only through their shared loops; see evidence.assumptions.',
